@@ -119,9 +119,11 @@ class RandomPolicy:
 class Sched:
 
   def __init__(self, policy=None, max_steps=200000, trace_events=False,
-               quiet_logging=True, start_time=1000.0):
+               quiet_logging=True, start_time=1000.0, max_vtime=200000.0):
     self.policy = policy or Sequential()
     self.now = start_time
+    self.t0 = start_time
+    self.max_vtime = max_vtime
     self.states = []
     self.by_thread = {}
     self.current = None
@@ -173,6 +175,9 @@ class Sched:
         self.failure = Deadlock([(s.name, s.why) for s in live])
         return None
       self.now = min(s.wake_at for s in timed)
+      if self.now - self.t0 > self.max_vtime:
+        self.failure = StepBudget('virtual time budget exhausted (%.0f s): the run does not finish' % self.max_vtime)
+        return None
       en = [s for s in timed if s.wake_at <= self.now]
       timed_out = True
     if len(en) == 1:
